@@ -2194,3 +2194,103 @@ def rf194(run):
                               'the item is not part of the value — `lref L, L2, 24` then holds addr (L) - addr (L2) under this engine and '
                               'addr (L) - addr (L2) + 24 under the others' % (fn, F.src(st['c'][1])[:60], st['l']), line=st['l'])
     return n
+
+
+# ---------------------------------------------------------------------------------------------
+# RF196: the loops of MIR_link see the modules loaded while they run
+# ---------------------------------------------------------------------------------------------
+
+def rf196(run):
+    rule = 'RF196'
+    run.rule(rule, 'MIR_link: the import resolver runs inside the first loop over modules_to_link and may itself load a module (a definition '
+                   'fetched on demand); MIR_load_module appends it to the same vector, and the final loop pops *all* of it.  Every `for` loop '
+                   'of MIR_link that indexes modules_to_link therefore re-reads the vector length in its condition; a length taken once '
+                   'before the loops gives the late module an interface with its imports unbound and its functions not simplified')
+    tu = run.tu('mir')
+    f = tu.func('MIR_link')
+    run.functions_analysed.add(('mir', f.name))
+    n = 0
+    for lp in f.walk():
+        if lp['k'] != 'ForStmt' or lp['c'][1] is None:
+            continue
+        body = lp['c'][3]
+        idx = any(y['k'] == 'CallExpr' and (y.get('callee') or '').startswith('VARR_MIR_module_t') and (y.get('callee') or '').endswith('get')
+                  and 'modules_to_link' in F.src(y) for y in F.walk(body))
+        # only the outermost loop over the vector (the loops over items are nested in it)
+        if not idx or any(y['k'] == 'ForStmt' and y is not lp and any(z is lp for z in F.walk(y)) and 'modules_to_link' in F.src(y['c'][1] or {'k': 'x', 'c': []})
+                          for y in f.walk() if y['k'] == 'ForStmt' and y['c'][1] is not None):
+            if not idx:
+                continue
+        cond = lp['c'][1]
+        if 'modules_to_link' not in F.src(cond) and not any(y['k'] == 'DeclRefExpr' for y in F.walk(cond)):
+            continue
+        direct_get = any(y['k'] == 'CallExpr' and (y.get('callee') or '').endswith('get') and 'modules_to_link' in F.src(y) and
+                         any(z is y for z in F.walk(st)) for st in (F.kids(body) if body['k'] == 'CompoundStmt' else [body]) for y in F.walk(st)
+                         if y['k'] == 'CallExpr')
+        if not direct_get:
+            continue
+        ok = any(y['k'] == 'CallExpr' and (y.get('callee') or '').endswith('length') and 'modules_to_link' in F.src(y) for y in F.walk(cond))
+        n += 1
+        run.ob(rule, (lp['l'],), ok, {'site': '%s:%d' % (f.relfile(), lp['l']), 'condition': F.src(cond)[:70]})
+        if not ok:
+            run.violation(rule, f, 'module count taken before the loop', 'the loop at line %d runs over modules_to_link with the condition `%s`: a module '
+                          'loaded by the import resolver during the link step is not seen by this loop but gets its interface set by the '
+                          'final one — its imports stay unbound' % (lp['l'], F.src(cond)[:50]), line=lp['l'])
+    run.control(rule, 'loops of MIR_link over modules_to_link found', n >= 2)
+    return n
+
+
+# ---------------------------------------------------------------------------------------------
+# RF199: the current module is restored from a value that was saved from it
+# ---------------------------------------------------------------------------------------------
+
+def rf199(run):
+    rule = 'RF199'
+    run.rule(rule, 'mir.c: functions that switch the context\'s current module for a moment (to create an item in the environment or in the module '
+                   'of a function being generated) put it back with `curr_module = <local>`.  On every path to such a restore the local was '
+                   'last assigned from `curr_module` — an initialiser `= NULL` that can reach the restore resets the module a caller is '
+                   'building (the generator adds helper imports while the user is between MIR_new_module and MIR_finish_module)')
+    tu = run.tu('mir')
+    n = 0
+    for g in tu.func_list:
+        if g.body is None or not g.file.endswith('/mir.c'):
+            continue
+        restores = [x for x in g.walk() if x['k'] == 'BinaryOperator' and x['op'] == '=' and F.src(F.strip(x['c'][0])).replace(' ', '') in ('ctx->curr_module', 'curr_module')
+                    and F.strip(x['c'][1])['k'] == 'DeclRefExpr' and F.strip(x['c'][1]).get('dk') == 'local']
+        if not restores:
+            continue
+        cfg = g.cfg
+        for rs in restores:
+            v = F.strip(rs['c'][1])['n']
+            good, bad = set(), set()
+            for b, B in cfg.blocks.items():
+                for el in B.elems:
+                    for y in F.walk(el):
+                        src_ = None
+                        if y['k'] == 'BinaryOperator' and y['op'] == '=' and F.src(F.strip(y['c'][0])) == v:
+                            src_ = F.src(y['c'][1])
+                        if y['k'] == 'DeclStmt':
+                            for d in y.get('decls', []):
+                                if d['n'] == v and d.get('init') is not None:
+                                    src_ = F.src(d['init'])
+                        if src_ is not None:
+                            (good if 'curr_module' in src_ else bad).add(b)
+            # a declaration with initialiser is not always a CFG element of its own: look at the AST as well
+            for y in g.walk():
+                if y['k'] == 'DeclStmt':
+                    for d in y.get('decls', []):
+                        if d['n'] == v and d.get('init') is not None:
+                            (good if 'curr_module' in F.src(d['init']) else bad).add(cfg.entry)
+            if v not in [d['n'] for y in g.walk() if y['k'] == 'DeclStmt' for d in y.get('decls', []) if d.get('init') is not None] and not good:
+                bad.add(cfg.entry)
+            rb = cfg.block_of(rs)
+            reach_bad = any(rb in cfg.reachable_from(b, avoid=lambda bb: bb in good and bb != b) and not (b in good) for b in bad) if rb is not None else False
+            n += 1
+            run.functions_analysed.add(('mir', g.name))
+            run.ob(rule, (g.name, rs['l']), not reach_bad, {'site': '%s:%d %s' % (g.relfile(), rs['l'], g.name), 'restored from': v})
+            if reach_bad:
+                run.violation(rule, g, 'current module restored from an unsaved value', '%s restores `curr_module = %s` (line %d) on a path where `%s` was '
+                              'not taken from curr_module (an initialiser or another value reaches the restore): the module the caller is '
+                              'building is forgotten, and the next item is refused with "outside module"' % (g.name, v, rs['l'], v), line=rs['l'])
+    run.control(rule, 'save / restore pairs of curr_module found', n >= 2)
+    return n
